@@ -180,7 +180,8 @@ def gamut_case(draw):
     X = X + np.eye(m)[np.arange(k) % m] * 0.5            # no all-zero rows, full-dimensional chromaticities
     sup = np.asarray(draw(gens.array((3, m), 0.0, 10.0, styles=("raw",)))).reshape(3, m) + 0.1
     return dict(X=X.tolist(), extra=sup.tolist(), lam=draw(gens.log_uniform(1e-3, 1e3)), rowlam=draw(gens.array((k,), 0.1, 10.0, styles=("raw",))),
-                metric=draw(st.sampled_from(["width", "volume"])), seed=draw(st.integers(0, 2 ** 31 - 1)), at_l1=draw(st.booleans()), l1_t=draw(st.floats(0.2, 0.8)))
+                metric=draw(st.sampled_from(["width", "volume"])), seed=draw(st.integers(0, 2 ** 31 - 1)), at_l1=draw(st.booleans()), l1_t=draw(st.floats(0.2, 0.8)),
+                zero_rows=draw(st.sampled_from(["none", "none", "both", "reference"])))
 
 
 def body_gamut(case):
@@ -189,6 +190,13 @@ def body_gamut(case):
     metric, seed = case["metric"], case["seed"]
     S = np.vstack([X, np.asarray(case["extra"], dtype=float)])
     rowlam = np.maximum(np.asarray(case["rowlam"], dtype=float), 0.1)
+    # dark (all-zero) rows carry no chromaticity: they must not change any of the relations
+    zr = case.get("zero_rows", "none")
+    if zr in ("both", "reference"):
+        S = np.vstack([S, np.zeros((1, X.shape[1]))])
+    if zr == "both":
+        X = np.vstack([X, np.zeros((1, X.shape[1]))])
+        rowlam = np.concatenate([rowlam, [1.0]])
     sums = X.sum(axis=1)
     at = float(sums.min() + case["l1_t"] * (sums.max() - sums.min())) if case["at_l1"] and sums.max() > sums.min() * 1.01 else None
     with calling(f"compute_gamut(metric={metric})"):
@@ -204,7 +212,13 @@ def body_gamut(case):
     check(abs(g_rows - g) <= 1e-9 * g, "gamut:row-intensity", f"gamut changes when rows are rescaled individually (same chromaticities): {g} -> {g_rows}")
     check(abs(g_self - 1.0) <= 1e-9, "gamut:relative-to-itself", f"gamut relative to itself = {g_self}")
     check(0 < g_sup <= 1.0 + 1e-9, "gamut:superset", f"gamut relative to a superset = {g_sup}")
-    labs = [f"m{X.shape[1]}", metric]
+    labs = [f"m{X.shape[1]}", metric, f"zero_rows:{zr}"]
+    if zr != "none":
+        # the gamut relative to the reference with and without its dark row must be identical
+        with calling("compute_gamut (reference without the dark row)"):
+            with np.errstate(all="ignore"):
+                g_ref = float(dreye.compute_gamut(X, metric=metric, seed=seed, relative_to=S[np.abs(S).sum(axis=1) > 0]))
+        check(abs(g_ref - g_sup) <= 1e-9 * abs(g_ref), "gamut:dark-row-in-reference", f"a dark row in the reference changes the relative gamut: {g_ref} -> {g_sup}")
     if g_at is not None:
         check(0 <= g_at <= 1.0 + 1e-9, "gamut:at-l1-superset", f"gamut at l1={at} relative to a superset = {g_at}")
         labs.append("at_l1")
